@@ -49,7 +49,10 @@ for _pid, _ref, _txt in (
 	("C12", "§5/C12", "Power/children/clock model: bound sockets equal the documented port plan, destinations are +100/+101/+102, POWERON status, clock indications to exactly the running clock owners at multiples of the period, ticks iff a clock owner runs, restart at the start frame, hopping and queue forgotten on POWEROFF."),
 	("C18", "§5/C18", "Drop-counter model per receiver: FAKE_DROP n [period] suppresses exactly n matching bursts, RFMUTE on either side suppresses all; one NOPE.ind with noise values on v1 links, nothing on v0; rejected commands change nothing."),
 ):
-	CHECKS[_pid] = dict(UM, design_ref=_ref, text=_txt + " Seeded search over configurations, histories and network faults; sampling, not proof.")
+	_r2 = {"C02": "30", "C10": "30", "C18": "30", "C05": "25", "C03": "15", "C12": "10"}[_pid]
+	CHECKS[_pid] = dict(UM, design_ref=_ref, text=_txt + " Seeded search over configurations, histories and network faults; " + _r2 +
+		" % of the runs race one command or burst arrival against one clock tick at source-line granularity and judge what every recipient gets "
+		"against every order of the two (versions of the model state, DESIGN.md 9.7); sampling, not proof.")
 
 CHECKS["C14"] = dict(engine="um+dump+trxcon", category="exploration", design_ref="§5/C14",
 	technique="deterministic simulation with hostile-input fault injection: seeded valid sessions of the real fake_trx.Application with malformed control/data datagrams injected at arbitrary points, damaged capture files on the simulated disk, hostile datagrams into trxcon's trx_if.c built with ASan/UBSan; oracles: no simulated thread dies, parsers raise only ValueError, later traffic still served per the reference model",
